@@ -8,6 +8,7 @@ import Asn1.Schemaless
 import Proofs.Fuel
 import Proofs.SchemalessLeaves
 import Proofs.Codec
+import Proofs.Kernels
 
 namespace Asn1.C16
 
@@ -122,5 +123,27 @@ example : leavesOf (.seq (.cons .req (.tagged true .context 2 (.prim (.str 12)))
     (.seq [.str [0x61], .absent, .seqOf [.seq [.int 5], .seq [.int (-1)]]])
     = [(12, .str [0x61]), (2, .int 5), (2, .int (-1))] := by
   simp [leavesOf, leavesF, leavesE, PrimTy.univNum]
+
+/-! ### at the source level: what the decoder makes of a tag it has no codec for -/
+
+/-- **an unknown tag is an explicit wrapper exactly when it is constructed and not universal, at the source level**: the
+    `stTryAsExplicitTag` block of `SingleItemDecoder.__call__` (translated from /repo on this run into `GenK.explicitGuess`:
+    the first tag's form and class parameters, the decoder's `defaultErrorState` a parameter) goes on to decode the contents as
+    a nested element (state `stDecodeValue` = 6) for a constructed tag of a non-universal class, and to the error state
+    otherwise - for every tag and every non-empty tag set -/
+theorem source_unknown_tag_is_wrapper_or_error (t : Tag) (ts : Py.Tup) (hne : ts ≠ []) (errState : Int) :
+    GenK.explicitGuess errState (t.cls.bits : Int) ((if t.constructed then 0x20 else 0 : Nat) : Int) ts =
+      .ok (if t.constructed && t.cls != .universal then 6 else errState) := by
+  unfold GenK.explicitGuess
+  have he : ts.isEmpty = false := by cases ts with
+    | nil => exact absurd rfl hne
+    | cons a r => rfl
+  cases hc : t.constructed <;> cases hk : t.cls <;> simp [he, TagClass.bits, pure, Except.pure, bind, Except.bind]
+
+/-- with the error state the three decoders declare (`Generated`: 8 = stErrorCondition), a primitive unknown tag and an unknown
+    universal tag are refused, a constructed context / application / private one is opened -/
+example : GenK.explicitGuess 8 128 32 [0] = .ok 6 := by rfl
+example : GenK.explicitGuess 8 128 0 [0] = .ok 8 := by rfl
+example : GenK.explicitGuess 8 0 32 [0] = .ok 8 := by rfl
 
 end Asn1.C16
